@@ -25,7 +25,8 @@ def func_body(src, header_re):
     m = re.search(header_re, src, re.M)
     if not m:
         return None
-    i = src.index("{", m.end() - 1)
+    # the body's brace ends the header line (parameters may contain `interface{}`)
+    i = src.index("{\n", m.end() - 1)
     depth, j, in_str, in_raw, in_chr = 0, i, False, False, False
     while j < len(src):
         c = src[j]
@@ -266,6 +267,62 @@ def main():
     facts["inputWrites"] = len(re.findall(r"\b(?:doc|docData|patchData|originalJSON|modifiedJSON|buf)\[[^\]]*\]\s*=[^=]", patch + merge)) \
         + len(re.findall(r"\(\*n\.raw\)\[[^\]]*\]\s*=[^=]", patch + merge))
 
+    # ---- branch conditions of the functions the model transcribes: every `if` / `else if` /
+    # `for` / `switch` / `case` header, in source order, white space normalised
+    def conditions(body):
+        out = []
+        for m in re.finditer(r"^\s*(?:\} else )?(if|for|switch|case) ?([^\n]*?)\s*[:{]\s*$|^\s*(default):\s*$|^\s*\} (else) \{\s*$", body or "", re.M):
+            if m.group(1):
+                out.append(m.group(1) + " " + re.sub(r"\s+", " ", m.group(2)).strip())
+            else:
+                out.append(m.group(3) or m.group(4))
+        return out
+
+    conds = {}
+    for recv, fn in (("partialDoc", "set"), ("partialDoc", "get"), ("partialDoc", "remove"), ("partialArray", "set"),
+                     ("partialArray", "add"), ("partialArray", "get"), ("partialArray", "remove")):
+        conds[recv + "." + fn] = conditions(func_body(patch, r"^func \(d \*" + recv + r"\) " + fn + r"\("))
+    for fn in ("add", "remove", "replace", "move", "test", "copy"):
+        conds["Patch." + fn] = conditions(func_body(patch, r"^func \(p Patch\) " + fn + r"\("))
+    for fn in ("findObject", "ensurePathExists", "isArray", "deepCopy", "validateOperation", "Equal", "DecodePatch"):
+        conds[fn] = conditions(func_body(patch, r"^func " + fn + r"\("))
+    for fn in ("equal", "isNull", "tryDoc", "tryAry", "intoDoc", "intoAry"):
+        conds["lazyNode." + fn] = conditions(func_body(patch, r"^func \(n \*lazyNode\) " + fn + r"\("))
+    conds["ApplyIndentWithOptions"] = conditions(func_body(patch, r"^func \(p Patch\) ApplyIndentWithOptions\("))
+    conds["TrustMarshalJSON"] = conditions(func_body(patch, r"^func \(n \*partialDoc\) TrustMarshalJSON\("))
+    for fn in ("merge", "mergeDocs", "pruneNulls", "pruneDocNulls", "doMergePatch", "CreateMergePatch", "createObjectMergePatch",
+               "createArrayMergePatch", "matchesArray", "matchesValue", "getDiff", "resemblesJSONArray"):
+        conds["merge." + fn] = conditions(func_body(merge, r"^func " + fn + r"\("))
+    facts["conditions"] = conds
+    indent_go = read(os.path.join(repo, "v5/internal/json/indent.go"))
+    cc = {}
+    cc["compact"] = conditions(func_body(indent_go, r"^func compact\("))
+    cc["Indent"] = conditions(func_body(indent_go, r"^func Indent\("))
+    cc["HTMLEscape"] = conditions(func_body(encode, r"^func HTMLEscape\("))
+    cc["encodeState.string"] = conditions(func_body(encode, r"^func \(e \*encodeState\) string\("))
+    cc["unquoteBytes"] = conditions(func_body(decode, r"^func unquoteBytes\("))
+    cc["getu4"] = conditions(func_body(decode, r"^func getu4\("))
+    cc["checkValid"] = conditions(func_body(scanner, r"^func checkValid\("))
+    cc["Valid"] = conditions(func_body(scanner, r"^func Valid\("))
+    cc["scanner.eof"] = conditions(func_body(scanner, r"^func \(s \*scanner\) eof\("))
+    cc["pushParseState"] = conditions(func_body(scanner, r"^func \(s \*scanner\) pushParseState\("))
+    cc["rescanLiteral"] = conditions(func_body(decode, r"^func \(d \*decodeState\) rescanLiteral\("))
+    facts["codecConditions"] = cc
+    lc = {}
+    for recv, fn in (("partialDoc", "set"), ("partialDoc", "add"), ("partialDoc", "get"), ("partialDoc", "remove"), ("partialArray", "set"),
+                     ("partialArray", "add"), ("partialArray", "get"), ("partialArray", "remove")):
+        lc[recv + "." + fn] = conditions(func_body(lpatch, r"^func \(d \*" + recv + r"\) " + fn + r"\("))
+    for fn in ("add", "remove", "replace", "move", "test", "copy", "ApplyIndent"):
+        lc["Patch." + fn] = conditions(func_body(lpatch, r"^func \(p Patch\) " + fn + r"\("))
+    for fn in ("findObject", "deepCopy", "Equal", "DecodePatch", "isArray"):
+        lc[fn] = conditions(func_body(lpatch, r"^func " + fn + r"\("))
+    for fn in ("equal", "isNull", "tryDoc", "tryAry", "intoDoc", "intoAry"):
+        lc["lazyNode." + fn] = conditions(func_body(lpatch, r"^func \(n \*lazyNode\) " + fn + r"\("))
+    for fn in ("merge", "mergeDocs", "pruneNulls", "pruneDocNulls", "doMergePatch", "CreateMergePatch", "createObjectMergePatch",
+               "createArrayMergePatch", "matchesArray", "matchesValue", "getDiff", "resemblesJSONArray"):
+        lc["merge." + fn] = conditions(func_body(lmerge, r"^func " + fn + r"\("))
+    facts["legacyConditions"] = lc
+
     def b(x):
         return "true" if x else "false"
 
@@ -311,6 +368,14 @@ def main():
     L.append("def decodePoolDiscipline : List (String × Nat × Nat × Bool) := " + lean_list(
         "(" + lean_str(k) + ", " + str(v[0]) + ", " + str(v[1]) + ", " + b(v[2]) + ")" for k, v in sorted(pools.items())))
     L.append(f"def inputWrites : Nat := {facts['inputWrites']}")
+    L.append("def codecConditions : List (String × List String) := " + lean_list(
+        "(" + lean_str(k) + ", " + lean_list(lean_str(x) for x in v) + ")" for k, v in sorted(cc.items())))
+    L.append("def legacyConditions : List (String × List String) := " + lean_list(
+        "(" + lean_str(k) + ", " + lean_list(lean_str(x) for x in v) + ")" for k, v in sorted(lc.items())))
+    L.append("def conditions : List (String × List String) := " + lean_list(
+        "(" + lean_str(k) + ", " + lean_list(lean_str(x) for x in v) + ")" for k, v in sorted(conds.items()) if not k.startswith("merge.")))
+    L.append("def mergeConditions : List (String × List String) := " + lean_list(
+        "(" + lean_str(k) + ", " + lean_list(lean_str(x) for x in v) + ")" for k, v in sorted(conds.items()) if k.startswith("merge.")))
     L.append("\nend JP.Generated")
     text = "\n".join(L) + "\n"
     os.makedirs(os.path.dirname(outp), exist_ok=True)
